@@ -29,6 +29,7 @@ import (
 
 	"github.com/restic/restic/internal/data"
 	"github.com/restic/restic/internal/fs"
+	"github.com/restic/restic/internal/repository"
 	"github.com/restic/restic/internal/restic"
 	kit "github.com/restic/restic/internal/verifkit"
 )
@@ -55,8 +56,19 @@ type c55FS struct {
 	kinds     map[string]string // absolute path -> kind of the item (swap classes)
 	side      string            // directory outside the source tree: swapped-out originals, symlink targets
 	delivered map[string]bool
+	served    int      // most bytes a file had delivered when one of its Read calls answered with a fault
 	trouble   []string // harness trouble (a swap that could not be carried out)
 	nswap     int
+}
+
+// readFault notes that a Read call on abs answered with the fault after nread bytes had been delivered.
+func (f *c55FS) readFault(abs string, nread int) {
+	f.mu.Lock()
+	f.delivered[abs] = true
+	if nread > f.served {
+		f.served = nread
+	}
+	f.mu.Unlock()
 }
 
 func newC55FS(side string) *c55FS {
@@ -262,22 +274,24 @@ func (c *c55File) Read(p []byte) (int, error) {
 	if k, pers, short, ok := c55ReadCall(c.class); ok {
 		c.calls++
 		if c.calls == k || (pers && c.calls > k) {
-			c.fs.hit(c.abs)
+			c.fs.readFault(c.abs, c.nread)
 			return 0, c55Err("read", c.name, syscall.EIO)
 		}
 		if m := c.fs.piece[c.abs]; short && m > 0 && len(p) > m {
 			p = p[:m]
 		}
-		return c.File.Read(p)
+		n, err := c.File.Read(p)
+		c.nread += n
+		return n, err
 	}
 	switch c.class {
 	case "read_eio0":
-		c.fs.hit(c.abs)
+		c.fs.readFault(c.abs, 0)
 		return 0, c55Err("read", c.name, syscall.EIO)
 	case "read_eio":
 		limit := c.fs.eioAt[c.abs]
 		if c.nread >= limit {
-			c.fs.hit(c.abs)
+			c.fs.readFault(c.abs, c.nread)
 			return 0, c55Err("read", c.name, syscall.EIO)
 		}
 		if len(p) > limit-c.nread {
@@ -327,6 +341,9 @@ func c55Name(i int, kind string, isTarget bool) string {
 // constant data, so the first chunk has the maximal size (8 MiB) and takes long to hash / compress / encrypt.
 const c55ConstSize = 8*1024*1024 + 300000
 
+// c55MinChunk is the minimal chunk size of the chunker: a read fault before that many bytes meets no chunk in flight.
+const c55MinChunk = 512 * 1024
+
 func c55FileBytes(i, size int, gen int) []byte {
 	if size == c55ConstSize {
 		return bytes.Repeat([]byte{0x55}, size)
@@ -339,7 +356,7 @@ func c55FileBytes(i, size int, gen int) []byte {
 
 // c55Materialise creates the tree of script s below base. Items whose fault is target_missing are not created.
 // variant chooses the content of the large file: even = random content (seeded by variant: other chunk boundaries),
-// odd = constant content.
+// odd = constant content (stored uncompressed, see c55RunInproc).
 func c55Materialise(t testing.TB, base string, s *c55Script, bigItem int, variant int) *c55Tree {
 	n := len(s.Kind)
 	tr := &c55Tree{base: base, rel: make([]string, n+1), sizes: make([]int, n+1)}
@@ -646,7 +663,8 @@ func c55Plan(sel []*c55Script, seed int64) []c55PlannedRun {
 			// a read error in the middle of a large file meets chunks that are still being saved asynchronously: what
 			// happens depends on where the chunk boundaries are and how long a chunk takes; these runs are repeated
 			// with other contents of the large file (random: other boundaries; constant: one maximal chunk)
-			for r := 1; r < kit.Pick(4, 2); r++ {
+			// (the repetitions are dropped when the first run shows that the fault came before a chunk could be cut)
+			for r := 1; r < kit.Pick(8, 4); r++ {
 				plan = append(plan, c55PlannedRun{s, "noparent", r})
 			}
 		}
@@ -674,6 +692,7 @@ func c55Child(t *testing.T, plan []c55PlannedRun) {
 	sink := &c55ChildSink{f: f}
 	defer func() { backupFSTestHook = nil }()
 	var e *vEnv
+	servedFirst := map[int]int{} // script -> bytes the faulted file had delivered in the first (variant 0) run
 	for n := from; n < len(plan); n++ {
 		if e == nil || (n-from)%120 == 0 {
 			e = newVEnv(t, nil)
@@ -681,9 +700,16 @@ func c55Child(t *testing.T, plan []c55PlannedRun) {
 				t.Fatal(err)
 			}
 		}
+		if served, known := servedFirst[plan[n].s.idx]; plan[n].variant > 0 && known && served < c55MinChunk {
+			sink.Count("repetitions_dropped_fault_before_first_chunk", 1)
+			continue
+		}
 		sink.emit(c55Event{T: "begin", N: n})
-		c55RunInproc(t, e, plan[n].s, plan[n].mode, plan[n].variant, n+1, sink)
+		served := c55RunInproc(t, e, plan[n].s, plan[n].mode, plan[n].variant, n+1, sink)
 		sink.emit(c55Event{T: "end", N: n})
+		if plan[n].variant == 0 && plan[n].mode == "noparent" {
+			servedFirst[plan[n].s.idx] = served
+		}
 	}
 	sink.emit(c55Event{T: "done"})
 }
@@ -853,7 +879,7 @@ func c55Faulty(tr *c55Tree, s *c55Script, side string) *c55FS {
 	return ffs
 }
 
-func c55RunInproc(t testing.TB, e *vEnv, s *c55Script, mode string, variant int, run int, res c55Sink) {
+func c55RunInproc(t testing.TB, e *vEnv, s *c55Script, mode string, variant int, run int, res c55Sink) (served int) {
 	base, err := os.MkdirTemp(e.base, "src-")
 	if err != nil {
 		t.Fatal(err)
@@ -865,6 +891,14 @@ func c55RunInproc(t testing.TB, e *vEnv, s *c55Script, mode string, variant int,
 	}
 	defer os.RemoveAll(side)
 	tr := c55Materialise(t, base, s, c55BigItem(s), variant)
+	if variant%2 == 1 {
+		// the constant-content flavour of the large file is stored uncompressed in a repository with the minimal
+		// pack size: its 8 MiB chunk is a pack of its own, queued for upload as soon as it is hashed and encrypted
+		// (large files complete packs all the time; this makes it happen with one chunk)
+		oldC, oldP := e.gopts.Compression, e.gopts.PackSize
+		e.gopts.Compression, e.gopts.PackSize = repository.CompressionOff, 4
+		defer func() { e.gopts.Compression, e.gopts.PackSize = oldC, oldP }()
+	}
 	host := fmt.Sprintf("h%d", run)
 	opts := BackupOptions{Host: host, NoScan: true}
 	hook := func(ffs *c55FS) {
@@ -885,6 +919,7 @@ func c55RunInproc(t testing.TB, e *vEnv, s *c55Script, mode string, variant int,
 		berr := e.backup(base, tr.targets, opts)
 		res.Count("ms_backup", int(time.Since(t0).Milliseconds()))
 		backupFSTestHook = nil
+		served = ffs.served
 		for _, tb := range ffs.trouble {
 			res.Problem("script %d (%s): swap failed: %s", s.idx, mode, tb)
 		}
@@ -970,7 +1005,7 @@ func c55RunInproc(t testing.TB, e *vEnv, s *c55Script, mode string, variant int,
 		err := e.backup(base, tr.targets, opts)
 		if err != nil && err != ErrInvalidSourceData {
 			res.Problem("script %d: clean parent backup failed: %v", s.idx, err)
-			return
+			return 0
 		}
 		// change (size and content of) the files with an odd item number, keep the others untouched
 		for i := 1; i < len(tr.rel); i++ {
@@ -988,11 +1023,12 @@ func c55RunInproc(t testing.TB, e *vEnv, s *c55Script, mode string, variant int,
 		parentID := faulted("noparent", opts, "")
 		if parentID == "" {
 			res.Count("skip_mode_first_run_without_snapshot", 1) // (rejected by TLC as a run without parent)
-			return
+			return served
 		}
 		opts.SkipIfUnchanged = true
 		faulted("skip", opts, parentID)
 	}
+	return served
 }
 
 // ---------------------------------------------------------------- the real binary, faults on disk
